@@ -111,6 +111,12 @@ def run(data):
             r = guarded(f)
         else:
             r = {"err": "bad op"}
+        if "err" in r and op in ("parse_unit", "parse_quantity", "resolve"):
+            # a rejected text is rejected again, for the same reason, when it is parsed a second time
+            f2 = {"parse_unit": lambda: Unit.parse(c["s"]), "parse_quantity": lambda: Quantity.parse(c["s"]), "resolve": lambda: Unit.resolve_symbol(c["s"])}[op]
+            r2 = guarded(lambda: (f2(), {"ok": True})[1])
+            if r2.get("err") != r["err"]:
+                r["again_differs"] = r2.get("err") or "accepted"
         if before is not None:
             r["registry_unchanged"] = (snapshot() == before)
         out.append(r)
